@@ -35,6 +35,7 @@ def correspondence(ctx):
         for pre in ([], [0x61], [0x65E5], [0x20], [0x20000]):
             for post in ([], [0x62], [0x20], [0xE9]):
                 cases.append(f'prof|nick|enforce|f|b|{hexs(pre + s + post)}|')
+                cases.append(f'prof|nick|enforce|s|o|{hexs(pre + s + post)}|')
     rnd = set()
     for c in cases:
         rnd.add(c.split('|')[5])
